@@ -321,6 +321,17 @@ impl Process {
                 options.set(key, value.clone());
             }
 
+            // what tells the action what to do is not an output and is not cut away with the
+            // rest: the code and message of an error (a failed sub process returns them to an act
+            // that declares outputs, and a client can fail such an act too), the target of a back
+            for key in [consts::ACT_ERR_CODE, consts::ACT_ERR_MESSAGE, consts::ACT_SUBFLOW_TO] {
+                if let Some(value) = action.options.get_value(key) {
+                    if !options.contains_key(key) {
+                        options.set(key, value.clone());
+                    }
+                }
+            }
+
             // retset the options by rets defination
             action.options = options;
         }
